@@ -191,13 +191,11 @@ def work(item):
                             if not (len(res) >= 1 and res[0][0] == "StatusCodeError"):
                                 part.violation({"kind": "foreign-code-not-rejected", "where": shape},
                                                {"raw": raw.decode(), "got": res}, replay={"foreign": [code, other, body, shape]})
-                            elif shape in ("middle", "middle-of-four") and res[1:] not in ([("226", [" next"])],
-                                                                                         [(code, [" end"]), ]):
-                                # after rejecting at the foreign line the rest of that reply is still on the stream:
-                                # the client reads it as the next reply (its own terminator) - never garbage
-                                if not (len(res) == 2 and res[1][0] in (code, "226")):
-                                    part.violation({"kind": "stream-desynchronised-after-rejection", "where": shape},
-                                                   {"raw": raw.decode(), "got": res}, replay={"foreign": [code, other, body, shape]})
+                            elif res[1:] != [("226", [" next"])]:
+                                # "... and the next reply on the stream is still decoded correctly": the rejected reply
+                                # is consumed to its end, what comes next is the next reply - not the rest of this one
+                                part.violation({"kind": "stream-desynchronised-after-rejection", "where": shape},
+                                               {"raw": raw.decode(), "got": res}, replay={"foreign": [code, other, body, shape]})
                         part.states.add(report.fp([code, other, body, shape]))
                         part.nontrivial.add(report.fp([code, other, body, shape]))
         elif kind == "unencodable":
